@@ -22,6 +22,31 @@ func checkC01(c Node) Verdict {
 	want, _ := ExpectedRows(c)
 	n := tableLen(c, "t")
 	v.Nontrivial = len(want) > 0 && len(want) < n // the predicate separates the rows
+	if !v.OK {
+		return v
+	}
+	// a predicate and its negation partition the rows: both statements run on one and
+	// the same document object, the negated one second
+	if negT, ok := c["neg"].(Node); ok && negT["t"] == "arr" {
+		q := c["q"].(Node)
+		nq := With(q, "where", NotE(q["where"].(Node)))
+		doc := FromTagged(c["doc"]).(map[string]any)
+		sig := append(Features(q), "second-statement")
+		first := Run(doc, Style{}.Query(q), false)
+		second := Run(doc, Style{}.Query(nq), false)
+		v.Execs += 2
+		wantNeg := FromTagged(negT).([]any)
+		sql := Style{}.Query(q) + " ; " + Style{}.Query(nq)
+		if first.Err != nil || first.Panic != nil || !Equal(any(first.Rows), any(want)) {
+			return fail("result", sql, sig, "first statement on the shared document: want %s got %s", Canon(any(want)), first.Describe())
+		}
+		if second.Err != nil || second.Panic != nil || !Equal(any(second.Rows), any(wantNeg)) {
+			return fail("result", sql, sig, "negated predicate as second statement on the same document: want %s got %s", Canon(any(wantNeg)), second.Describe())
+		}
+		if len(first.Rows)+len(second.Rows) != n {
+			return fail("result", sql, sig, "predicate and negation do not partition the %d rows: %d + %d", n, len(first.Rows), len(second.Rows))
+		}
+	}
 	return v
 }
 
